@@ -333,6 +333,45 @@ func idxVariants(r *rand.Rand, good, stale, other []byte, thorough bool) []idxVa
 		recomputeCrcs(b)
 		vs = append(vs, idxVariant{"lookup-dropped/crc-recomputed", b, ""})
 	}
+	// whole batches removed / duplicated / reordered on batch boundaries: every remaining batch is intact and correctly
+	// checksummed, only the contiguity of the journal regions they index is broken
+	if len(metas) >= 2 {
+		type span struct{ a, b int }
+		var batches []span
+		start := 0
+		for _, m := range metas {
+			batches = append(batches, span{start, m.off + m.n})
+			start = m.off + m.n
+		}
+		tailBytes := good[start:]
+		build := func(order []int) []byte {
+			var b []byte
+			for _, i := range order {
+				b = append(b, good[batches[i].a:batches[i].b]...)
+			}
+			return append(b, tailBytes...)
+		}
+		all := func() []int {
+			o := make([]int, len(batches))
+			for i := range o {
+				o[i] = i
+			}
+			return o
+		}
+		without := func(i int) []int { o := all(); return append(o[:i], o[i+1:]...) }
+		vs = append(vs, idxVariant{"batch-dropped/first", build(without(0)), ""})
+		if len(batches) >= 3 {
+			mid := 1 + r.Intn(len(batches)-2)
+			vs = append(vs, idxVariant{"batch-dropped/middle", build(without(mid)), fmt.Sprint("batch=", mid)})
+		}
+		vs = append(vs, idxVariant{"batch-dropped/last", build(without(len(batches) - 1)), ""})
+		dup := all()
+		dup = append(dup[:1], dup...)
+		vs = append(vs, idxVariant{"batch-duplicated", build(dup), ""})
+		sw := all()
+		sw[0], sw[len(sw)-1] = sw[len(sw)-1], sw[0]
+		vs = append(vs, idxVariant{"batches-reordered", build(sw), ""})
+	}
 	for k := 0; k < 3; k++ {
 		b := make([]byte, 1+r.Intn(len(good)+40))
 		r.Read(b)
@@ -392,7 +431,7 @@ func c04(c *rig.Ctx) {
 		db := filepath.Join(work, "db")
 		rig.Must(os.MkdirAll(db, 0o755))
 		seed := r.Int63()
-		shape := "many"
+		shape := "batches"
 		if j%2 == 1 {
 			shape = "small"
 		}
@@ -406,6 +445,9 @@ func c04(c *rig.Ctx) {
 			return true
 		}
 		steps := 8 + r.Intn(6)
+		if shape == "batches" {
+			steps = 2 // two index-flushing commits per phase: >= 4 complete batches in the final index
+		}
 		if !run(seed, steps) {
 			continue
 		}
